@@ -282,6 +282,100 @@ let run5 s o =
       print_endline "PANIC";
       Dead
 
+
+(* ---------------------------------------------------------------- loop mode (M-LOOP, v4)
+   `driver loop [unfixed]`: same op lines as harness/src/bin/clientloop.rs.  POLL picks the one
+   thing poll() does next: connect, pop a queued notification, or the single ready select arm
+   (AMBIG when both the network and the request arm are ready: tokio's select! is random). *)
+let rec take k = function [] -> [] | x :: r -> if k = 0 then [] else x :: take (k - 1) r
+let rec drop k = function [] -> [] | (_ :: r) as l -> if k = 0 then l else drop (k - 1) r
+
+let loop_main unfixed =
+  let stp = if unfixed then l_step_orig else l_step in
+  let te = if unfixed then l_take_enabled_orig else l_take_enabled in
+  let lc = if unfixed then l_clean_orig else l_clean in
+  let l = ref (l_init (n "1") false) in
+  let inbox = ref [] and dropped = ref false and next_sp = ref None and reported = ref 0 in
+  let wire_delta () =
+    let w = l_wire !l in
+    let d = drop !reported w in
+    reported := List.length w;
+    String.concat " " (List.map packet_s d)
+  in
+  let yield_one head =
+    (* the arm has run: poll() returns the first queued notification *)
+    match stp !l Yield with
+    | Stepped l' ->
+        let ys = l_yielded l' in
+        l := l';
+        Printf.printf "EVENT %s WIRE[%s]\n%!" (event_s (List.nth ys (List.length ys - 1))) (wire_delta ())
+    | _ -> Printf.printf "%s WIRE[%s]\n%!" head (wire_delta ())
+  in
+  let arm op =
+    match stp !l op with
+    | Stepped l' -> l := l'; yield_one "NOEVENT"
+    | Failed (l', e) -> l := l'; reported := 0; Printf.printf "ERROR %s WIRE[]\n%!" (error_s e)
+    | Disabled -> print_endline "DISABLED"
+    | LPanic _ -> print_endline "PANIC"
+  in
+  iter_lines (fun line ->
+      match split_ws line with
+      | [] -> ()
+      | [ "LNEW"; max; manual ] ->
+          l := l_init (n max) (manual = "1");
+          inbox := []; dropped := false; next_sp := None; reported := 0;
+          print_endline "NEW"
+      | "SEND" :: r ->
+          let req =
+            match r with
+            | "PUB" :: q :: _ :: t :: p :: _ -> RPublish { p_qos = qos_of q; p_pkid = n "0"; p_topic = n t; p_payload = n p }
+            | [ "SUB" ] -> RSubscribe (n "1")
+            | [ "UNSUB" ] -> RUnsubscribe (n "1")
+            | [ "DISCONNECT" ] -> RDisconnect
+            | _ -> failwith ("bad SEND: " ^ line)
+          in
+          (match stp !l (UserSend req) with Stepped l' -> l := l' | _ -> ());
+          print_endline "OK"
+      | [ "ACCEPT"; sp ] -> next_sp := Some (sp = "1"); inbox := []; dropped := false; print_endline "OK"
+      | "NET" :: _ ->
+          if l_connected !l && not !dropped then begin
+            let parts = String.split_on_char ';' (String.sub line 3 (String.length line - 3)) in
+            List.iter (fun part -> match split_ws part with [] -> () | toks -> inbox := !inbox @ [ parse_packet toks ]) parts
+          end;
+          print_endline "OK"
+      | [ "DROP" ] -> dropped := true; print_endline "OK"
+      | [ "POLL" ] ->
+          if not (l_connected !l) then begin
+            match !next_sp with
+            | Some sp -> (
+                next_sp := None;
+                match stp !l (Reconnect sp) with
+                | Stepped l' ->
+                    l := l'; reported := 0;
+                    Printf.printf "EVENT I(CONNACK:%d:0) WIRE[CONNECT]\n%!" (if sp then 1 else 0)
+                | _ -> print_endline "DISABLED")
+            | None -> print_endline "NOCONN"
+          end
+          else if v4_events (l_st !l) <> [] then yield_one "NOEVENT"
+          else begin
+            let net_ready = !inbox <> [] || !dropped in
+            let take_ready = te !l in
+            if net_ready && take_ready then print_endline "AMBIG"
+            else if take_ready then arm TakeRequest
+            else if net_ready then begin
+              let batch = take 9 !inbox in
+              let rest = drop 9 !inbox in
+              inbox := rest;
+              if List.length batch < 9 && !dropped then arm (NetAbort batch) else arm (Net batch)
+            end
+            else Printf.printf "IDLE WIRE[%s]\n%!" (wire_delta ())
+          end
+      | [ "FINISH" ] -> (
+          match lc !l with
+          | Ok l' -> Printf.printf "HELD [%s]\n%!" (String.concat " " (List.map request_s (l_pending l')))
+          | _ -> print_endline "PANIC")
+      | _ -> failwith ("bad loop op: " ^ line))
+
 let main () =
   let st = ref Dead in
   iter_lines (fun line ->
@@ -310,4 +404,7 @@ let main () =
               | [ "CLEAN" ] -> st := run5 s Clean5
               | _ -> failwith ("bad op: " ^ line))))
 
-let () = if Array.length Sys.argv > 2 && Sys.argv.(1) = "known" then known Sys.argv.(2) else main ()
+let () =
+  if Array.length Sys.argv > 2 && Sys.argv.(1) = "known" then known Sys.argv.(2)
+  else if Array.length Sys.argv > 1 && Sys.argv.(1) = "loop" then loop_main (Array.length Sys.argv > 2 && Sys.argv.(2) = "unfixed")
+  else main ()
